@@ -66,6 +66,15 @@ TRANSFORMS = {
         # logging gets an empty body (the tracing dispatcher is not the subject and is not encodable)
         ("use tracing::{debug, warn};\n",
          "macro_rules! debug { ($($t:tt)*) => {{}} }\nmacro_rules! warn { ($($t:tt)*) => {{}} }\n"),
+        # derive(PartialEq) on a niche-encoded enum is not constant-folded by CBMC's symbolic execution (DESIGN.md, C03); comparing
+        # with a field-less variant is, by the definition of the derive, the discriminant test that `matches!` spells out
+        ("    #[br(if(chunk_type != ChunkType::EndOfFile))]\n", "    #[br(if(!matches!(chunk_type, ChunkType::EndOfFile)))]\n"),
+        # data-carrying enums get an explicit tag byte (layout only; Physis has no unsafe code that depends on enum layout): with
+        # rustc's default niche-filling layout the discriminant of a freshly parsed ChunkType is read out of its payload's bytes and
+        # is not a constant for CBMC's symbolic execution, so every arm of every `match` on it was explored
+        ("enum ChunkType {\n", "#[repr(u8)]\nenum ChunkType {\n"),
+        ("enum SqpkOperation {\n", "#[repr(u8)]\nenum SqpkOperation {\n"),
+        ("enum FileHeaderChunk {\n", "#[repr(u8)]\nenum FileHeaderChunk {\n"),
     ],
     "sqpack_data": [
         ("    file: std::fs::File,\n", "    file: crate::verif_support::memfile::MemFile,\n"),
@@ -411,6 +420,8 @@ H("C09", "gearsets", "c09g_pipeline_witness", expect="witness-fail", bounds="ass
 # ================================================================================================
 for n, t in (("name8", "quick"), ("name1", "quick"), ("name63", "thorough")):
     H("C10", "fiin", "c10_entry_layout_" + n, tier=t, unwind=70, timeout=300, bounds="one record: all sizes, all digests (symbolic), concrete name " + n, encodes=["fiin::FIINEntry (BinWrite)"], cbmc_args=FS256)
+H("C10", "fiin", "c10_entry_layout_non_ascii_name", unwind=70, timeout=300, bounds="one record: all sizes, all digests (symbolic), concrete 13-byte name with 2-, 3- and 4-byte UTF-8 characters", encodes=["fiin::FIINEntry (BinWrite)"], cbmc_args=FS256)
+H("C10", "fiin", "c10_entry_layout_symbolic_ascii_name5", unwind=70, timeout=300, bounds="one record: all sizes, digests and all 5-byte ASCII names without NUL (symbolic)", encodes=["fiin::FIINEntry (BinWrite)"], cbmc_args=FS256)
 H("C10", "fiin", "c10_table_layout_one_entry", unwind=70, timeout=600, bounds="table with one entry: all sizes / digests", encodes=["fiin::FileInfo (BinWrite)"], cbmc_args=["--max-field-sensitivity-array-size", "2048"])
 H("C10", "fiin", "c10_parse_one_entry", tier="thorough", unwind=70, timeout=400, bounds="1120-byte table: all sizes / digest bytes, concrete name", encodes=["fiin::FileInfo::from_existing"], cbmc_args=["--max-field-sensitivity-array-size", "2048"])
 H("C10", "fiin", "c10_pipeline_witness", expect="witness-fail", unwind=70, bounds="assert(false) twin", cbmc_args=FS256)
@@ -504,6 +515,8 @@ H("C10", "sha1", "c12_sha1_compress_full", tier="thorough", timeout=900, unwind=
 _MF = ["std::fs::File field of SqPackData -> in-memory file (support/memfile.rs; same Read + Seek behaviour for &handle)"]
 H("C02", "sqpack_data", "c02_standard_file_two_blocks", unwind=20, timeout=900, bounds="standard entry at offset 128, 2 raw blocks (5 + 3 bytes, table order != file order), all content bytes",
   encodes=["sqpack::data::SqPackData::read_standard_file", "sqpack::read_data_block"], stubs=_MF, cbmc_args=FS1K)
+H("C02", "sqpack_data", "c02_standard_file_no_blocks", unwind=44, timeout=600, bounds="standard entry with an empty block table (a stored zero-length file), all bytes behind the fixed header symbolic: extracts to an empty file",
+  encodes=["sqpack::data::SqPackData::read_standard_file"], stubs=_MF, cbmc_args=FS1K)
 H("C02", "sqpack_data", "c02_model_file_stack_runtime", tier="thorough", unwind=72, timeout=3000, bounds="model entry: stack 1 block, runtime 2 blocks (raw, 2..4 bytes each), no vertex / index data; all content bytes",
   encodes=["sqpack::data::SqPackData::read_model_file", "sqpack::read_data_block", "model::ModelFileHeader (BinWrite)"], stubs=_MF, cbmc_args=FS1K)
 H("C02", "sqpack_data", "c02_model_file_sections", tier="thorough", unwind=72, timeout=3000, bounds="model entry: stack 1 block, runtime 2 blocks, LOD0 vertex 1 + index 1 block (raw, 4..8 bytes each), all content bytes, any version / declaration / material counts",
@@ -563,10 +576,15 @@ H("C02", "sqpack_data", "c02_texture_file_two_mips", unwind=24, timeout=900, bou
 
 # C06: whole-file parse of a generated minimal model (possible since the binrw counted-vector model)
 H("C06", "model", "c06_from_existing_minimal_model", tier="thorough", unwind=80, timeout=2400,
-  bounds="minimal v5 model: 1 LOD, 1 mesh, declaration {Position Single3, UV Single4 (stream 0); UV Half2, Color ByteFloat4 (stream 1)}, 2 vertices, 3 indices, 1 sub-mesh, 1 material name; all 78 vertex / index buffer bytes symbolic",
+  bounds="minimal v5 model: 1 LOD, 1 mesh, declaration {Position Single3, UV Single4 (stream 0); UV Half2, Color ByteFloat4 (stream 1)}, 2 vertices, 3 indices, 1 sub-mesh, 1 material name; stream 1 stored 4 bytes behind the end of stream 0 (streams not back to back); all 82 vertex / gap / index buffer bytes symbolic",
   encodes=["model::MDL::from_existing", "model::ModelData (binrw)", "model_vertex_declarations::vertex_element_parser", "model_file_operations readers"],
   stubs=_HALFSTUB, cbmc_args=FS1K, kani_args=["--no-assertion-reach-checks"],
   no_cover="harness without any kani::assume (both vertices and all stream bytes are enumerated); cover!/reachability checks dropped because trace generation on the 3.6 M-variable formula ran out of memory")
+
+for n in ("index", "vertex"):
+    H("C18", "model", "c18_model_truncated_in_%s_buffer" % n, tier="thorough", unwind=80, timeout=2400, cbmc_args=FS1K, kani_args=["--no-assertion-reach-checks"],
+      bounds="the generated minimal model of c06_from_existing_minimal_model cut off inside its %s buffer (length concrete), all buffer bytes symbolic: no panic" % n,
+      encodes=["model::MDL::from_existing", "model::ModelData (binrw)"], stubs=_HALFSTUB)
 
 # ================================================================================================
 # session 2 additions
@@ -616,6 +634,9 @@ H("C14", "shpk", "c14_shader_package_pixel_shader_parameters", tier="quick", unw
   encodes=["shpk::ShaderPackage::from_existing", "shpk::Shader (BinRead)", "shpk::ResourceParameter (BinRead)"], stubs=["core::str::validations::run_utf8_validation -> ASCII-only model"])
 H("C14", "mtrl", "c14_material_from_existing_minimal", tier="quick", unwind=20, timeout=1200, cbmc_args=FS1K, kani_args=["--no-assertion-reach-checks"],
   bounds="88-byte material without colour / dye tables: 1 texture path, package name, 1 shader key, 1 constant of two floats, 1 sampler; counts, strings, constant offset / size concrete, everything else symbolic",
+  encodes=["mtrl::Material::from_existing", "mtrl::MaterialData (BinRead)"], stubs=["core::str::validations::run_utf8_validation -> ASCII-only model"])
+H("C14", "mtrl", "c14_material_two_textures_high_byte", tier="thorough", unwind=20, timeout=1200, cbmc_args=FS1K, kani_args=["--no-assertion-reach-checks"],
+  bounds="92-byte material with two texture paths, the first containing the byte 0xE9: second path and package name from their own positions in the string table; the rest as the minimal material",
   encodes=["mtrl::Material::from_existing", "mtrl::MaterialData (BinRead)"], stubs=["core::str::validations::run_utf8_validation -> ASCII-only model"])
 H("C16", "pbd", "c16_deformer_from_existing", tier="quick", unwind=16, timeout=1200, cbmc_args=FS1K, kani_args=["--no-assertion-reach-checks"],
   bounds="217-byte deformer file: 2 body ids, 2 links, deformers with 1 bone (odd count: padding) and 2 bones at an unaligned offset; counts, data offsets, names concrete; "
